@@ -65,6 +65,21 @@ func spaces() []*opseq.Space {
 			New: func() (opseq.Sys, error) { return bk.NewStoreSys(sp, u3, false) },
 		})
 	}
+	// fourth alphabet, cond configurations only: one blob just over the 1 MiB that cond's
+	// isSchema picker sniffs before it hands the (re-assembled) reader on
+	big := hs.Mk("mib1plus", hs.Det(77, 1<<20+2), "")
+	u4 := []hs.Blob{big, hs.BA}
+	for i := range specs {
+		sp := &specs[i]
+		if !strings.Contains(sp.Name, "cond") {
+			continue
+		}
+		out = append(out, &opseq.Space{
+			Name: sp.Name + "/over-1MiB", Ops: bk.StoreOps(u4), Depth: 2,
+			SigPrefix: "C01|" + sp.Name, WorkBase: i*7 + 6,
+			New: func() (opseq.Sys, error) { return bk.NewStoreSys(sp, u4, true) },
+		})
+	}
 	return out
 }
 
